@@ -592,3 +592,7 @@ mod tests {
         }
     }
 }
+
+#[cfg(kani)]
+#[path = "/verif/hooks/kani_security.rs"]
+mod verif_kani;
